@@ -138,6 +138,7 @@ func runC13(rc *RunCtx, i int) {
 		desc["with_abort"], desc["real_delete"] = w.Mem.WithAbort, w.Mem.RealDelete
 	}
 
+	gateKind := "CreateFile" // which first call of the gated run is held
 	exec := func(faults []c13Fault, gateCreate *stores.Gate) (*c13Run, *bs.BloomSearchEngine, *stores.Log, func() (*bs.MergeStats, error)) {
 		var data bs.DataStore
 		var meta bs.MetaStore
@@ -169,7 +170,7 @@ func runC13(rc *RunCtx, i int) {
 			defer pmu.Unlock()
 			p := pos
 			pos++
-			if gateCreate != nil && c.Kind == "CreateFile" && c.N == 0 {
+			if gateCreate != nil && c.Kind == gateKind && c.N == 0 {
 				return stores.Action{Gate: gateCreate}
 			}
 			for _, f := range faults {
@@ -408,6 +409,10 @@ func runC13(rc *RunCtx, i int) {
 		}
 	}
 	// concurrent Merge: a second call while the first is held at a gate
+	// (the first call is held at its first candidate listing step, source open, output creation,
+	// output write or commit: "in progress" starts when Merge is called, not when it writes)
+	gateKind = core.Pick(r, []string{"IterYield", "IterYield", "OpenFile", "CreateFile", "Write", "Update"})
+	rc.Res.Count("concurrent_merge_first_held_at."+gateKind, 1)
 	gate := stores.NewGate(false)
 	run, e, _, do := exec(nil, gate)
 	firstDone := make(chan error, 1)
